@@ -1541,7 +1541,9 @@ impl World {
             return;
         }
         let mut g = Rng::new(seed);
-        let keys: Vec<String> = items.keys().cloned().collect();
+        // in order of creation, not of name (block names are not reproducible across processes)
+        let mut keys: Vec<String> = items.keys().cloned().collect();
+        keys.sort_by_key(|k| (self.key_seq.get(k).cloned().unwrap_or(usize::MAX), k.clone()));
         let mut fails: Vec<(&str, String)> = vec![];
         for _ in 0..6 {
             let mut dmg = items.clone();
